@@ -60,6 +60,15 @@ def one_motor(ctx, idx, tier):
         ctx.violation('C08:valid-motor-rejected', {'motor': ms, 'exception': type(ex).__name__ + ': ' + str(ex)[:150]}, case)
         return
     ctx.count('motors')
+    if rng.random() < 0.35:
+        # the user reads the motor's constants and converts the returned quantities in place (to print a data sheet in other
+        # units): the motor is the same motor afterwards, every law below must still hold with the same SI constants
+        for attr in ('no_load_speed', 'maximum_torque', 'no_load_electric_current', 'maximum_electric_current', 'inertia_moment'):
+            obj = getattr(m, attr, None)
+            if obj is not None and rng.random() < 0.7:
+                us_ = [u_ for u_ in SI.units(type(obj).__name__) if u_ != obj.unit]
+                obj.to(rng.choice(us_), inplace=True)
+                ctx.count('constants_converted_in_place_after_construction')
     q = GEN.qsi
     Tmax, w0 = q(ms['Tmax']), q(ms['w0'])
     cur = ms['i0'] is not None
